@@ -259,7 +259,9 @@ pub fn real_eval(bytes: &[u8], ord: &[(String, usize)]) -> String {
                 s.push_str(&ids(&p.vars));
                 s.push(' ');
                 s.push_str(&ids(&p.free_vars));
-                s.push(')');
+                s.push_str(" (");
+                s.push_str(&p.vars.iter().map(|v| name_sx(&v.name).show()).collect::<Vec<_>>().join(" "));
+                s.push_str("))");
                 s
             }
         }
@@ -872,9 +874,40 @@ pub fn part_evalfp(out: &mut Out, o: &Opts) {
     }
 }
 
+/// API orderings with sparse distinct ids (C11): every injective assignment of ids 0..5 to every subset of <= 3 of four names
+pub fn part_evalord(out: &mut Out, _o: &Opts) {
+    let names = ["a", "b", "c", "d"];
+    let formulas = ["a & -b | c", "d ^ (c & a)", "exists b # (a & b) | (c & d)", "[a, b, c, d] = 2", "if c then a else d", "lfp d # a | (b & d)", "e & a | f & -g", "(a | x1) & (b | x2) & (x3 | x4) & -x5"];
+    let mut ords: Vec<Vec<(String, usize)>> = vec![vec![]];
+    fn rec(names: &[&str], start: usize, cur: &mut Vec<(String, usize)>, all: &mut Vec<Vec<(String, usize)>>) {
+        if cur.len() == 3 {
+            return;
+        }
+        for i in start..names.len() {
+            for id in 0..6usize {
+                if cur.iter().any(|(_, j)| *j == id) {
+                    continue;
+                }
+                cur.push((names[i].to_string(), id));
+                all.push(cur.clone());
+                rec(names, i + 1, cur, all);
+                cur.pop();
+            }
+        }
+    }
+    let mut cur = vec![];
+    rec(&names, 0, &mut cur, &mut ords);
+    for f in formulas {
+        for o in &ords {
+            emit_eval(out, f, o);
+        }
+    }
+}
+
 pub fn main(out: &mut Out, o: &Opts) {
     for p in o.parts.clone() {
         match p.as_str() {
+            "evalord" => part_evalord(out, o),
             "tok" => part_tok(out, o),
             "parse" => part_parse(out, o),
             "eval" => part_eval(out, o),
